@@ -105,7 +105,7 @@ class C14(Check):
             program = numbers(rng)
         else:
             program = workloads.generate(rng)
-        gc = schedules.never() if rng.random() < 0.3 else schedules.random_schedule(rng, self.startup, self.startup + 400)
+        gc = schedules.never() if rng.random() < 0.3 else schedules.random_schedule(rng, self.startup, self.startup + 400, program.get("heavy", False))
         return {"program": program, "label": program["name"], "gc": gc, "arena": schedules.random_policy(rng, 0.3),
                 "perturb": {"shift": rng.randrange(1, 64), "dummy_every": rng.choice([3, 5, 7])}}
 
